@@ -27,6 +27,7 @@ func init() {
 			{ID: "R10e", Floor: 1, Doc: "extraction depends on the payload window only: the header fields that can influence ExtractV1File after parsing are DataOffset and DataSize (an archive without index, or with any IndexOffset/characteristics, extracts the same)", Run: ruleR10e},
 			{ID: "R10d", Floor: 2, Doc: "reader windows from header fields", Run: ruleR10d},
 			{ID: "R10f", Floor: 2, Doc: "the index a wrap writes records true section offsets (= R03b)", Run: ruleR03b},
+			{ID: "R10g", Floor: 10, Doc: "no new dropped error in the container transforms (a failed write must fail the transform) (= R16h)", Run: ruleR16h},
 		},
 	})
 }
